@@ -582,10 +582,13 @@ Alphabet ==
                       Shaped(It("or", "alt9"), "block"), Shaped(It("map_err", "e10"), "block")}
          IN  base \cup {Def(it) : it \in base} \cup blk \cup {Def(it) : it \in blk}
              \cup {Wrap("map"), Wrap("and_then"), Def(Wrap("map")), Def(Wrap("and_then")), Unwrap}
+    \* deep nesting: runs of `<<<` followed by operators that apply to the outer value again (each `<<<` closes exactly one level)
+    [] Family = "unwraps" -> {Wrap("map"), Wrap("and_then"), Wrap("filter_map"), Unwrap, It("map", "inc"), It("dot", "is_some"), It("filter", "isEven"),
+                              It("dot", "count"), It("collect", ""), Def(It("map", "inc")), It("then", "idt")}
     [] Family = "wrap"  -> SmallItems \cup WrapItems \cup {Def(it) : it \in {It("map", "inc"), It("inspect", "nop"), It("dot", "is_some")}}
                            \cup {Def(Wrap(op)) : op \in {"map", "and_then", "filter_map", "inspect"}}
 
-Init == chain \in {[start |-> t, items |-> <<>>] : t \in IF Family = "capwrap" THEN {"OOI", "ItOI", "ItI", "OI"}
+Init == chain \in {[start |-> t, items |-> <<>>] : t \in IF Family \in {"capwrap", "unwraps"} THEN {"OOI", "ItOI", "ItI", "OI"}
                                                         ELSE IF Family = "trysteps" THEN {"OI", "RI", "OOI"} ELSE StartTypes}
 Next == /\ Len(chain.items) < MaxLen
         /\ \E it \in Extensions(chain, Alphabet) :
